@@ -666,6 +666,22 @@ func propC03(r *Run) {
 		}
 		// markers of a sliced feature: a range in a forward window gets a marker exactly on the
 		// ends whose residues were cut off and keeps its own
+		// a source feature never becomes partial by slicing: any member, inner ends included (seeded
+		// change C03-j), either strand (finding F37, repaired in /repo e43d5f2)
+		srcPartial := false
+		for _, f := range s.Features() {
+			srcPartial = srcPartial || (f.Key == "source" && anyPartial(f.Loc))
+		}
+		if !srcPartial {
+			for _, g := range res.Features() {
+				if g.Key == "source" {
+					r.count("seq.slice/source-complete")
+					if anyPartial(g.Loc) {
+						r.fail(Failure{Oracle: "slice: a source feature does not become partial", Op: line, Got: encLoc(g.Loc)})
+					}
+				}
+			}
+		}
 		if !wrap {
 			wantR := map[string]int{}
 			for _, f := range s.Features() {
